@@ -38,9 +38,9 @@ type tierPlan struct {
 }
 
 func planFor(tier string) tierPlan {
-	p := tierPlan{plainBatches: 96, plainRuns: 40, raceBatches: 96, raceRuns: 25, minimiseBudget: 90 * time.Second, batchTimeout: 10 * time.Minute}
+	p := tierPlan{plainBatches: 144, plainRuns: 20, raceBatches: 144, raceRuns: 12, minimiseBudget: 90 * time.Second, batchTimeout: 10 * time.Minute}
 	if tier == "thorough" {
-		p = tierPlan{plainBatches: 2400, plainRuns: 40, raceBatches: 2400, raceRuns: 25, minimiseBudget: 5 * time.Minute, batchTimeout: 20 * time.Minute}
+		p = tierPlan{plainBatches: 4800, plainRuns: 20, raceBatches: 4800, raceRuns: 12, minimiseBudget: 5 * time.Minute, batchTimeout: 20 * time.Minute}
 	}
 	if v := os.Getenv("VERIF_BUDGET_RUNS"); v != "" {
 		if n, err := strconv.Atoi(v); err == nil && n > 0 {
@@ -162,7 +162,8 @@ func checkC18(repo, tier string, verifSeed uint64) int {
 			}
 		}
 	}
-	// report at most three distinct unknown violations
+	// report at most two distinct unknown violations (each confirmed, minimised and replayed)
+	const maxReported = 2
 	reported := 0
 	seenKey := map[string]bool{}
 	for _, fv := range found {
@@ -175,13 +176,16 @@ func checkC18(repo, tier string, verifSeed uint64) int {
 		}
 		sort.Strings(ks)
 		sig := strings.Join(ks, "|")
-		if seenKey[sig] || reported >= 3 {
+		if seenKey[sig] || reported >= maxReported {
 			ev.Violations++
 			continue
 		}
 		seenKey[sig] = true
 		reported++
 		ev.Violations++
+		if reported == 2 {
+			plan.minimiseBudget /= 3
+		}
 		path := reportViolation(b, fv, verifSeed, plan, root, logf)
 		fmt.Printf("VIOLATION property=C18 replay=%s\n", path)
 		exit = 1
